@@ -60,4 +60,14 @@ def logHeaderOK (tbeCmd : Bool) (intree boots outArg : String) (cpus : Int) (lin
     last.startsWith "End         : "
   | _ => false
 
+/-- what lies between the head and the closing line of the log: nothing in a `-l` file (no table was asked
+    for); on the standard error, `TBE`'s progress messages `CPU : %02d - Bootstrap tree %d\r` (tbe.go:219, one
+    per bootstrap tree, `cpu` after the clamp to one thread, the ids the reader gave: 0, 1, …); `FBP` has none.
+    (`--silent` is declared in cmd/computesupport.go but read nowhere: it changes nothing.) -/
+def progressLines (tbeCmd : Bool) (logSel : String) (cpus : Int) (n : Nat) : List String :=
+  if tbeCmd && logSel == "stderr" then
+    let c := atLeastOne cpus
+    (List.range n).map fun i => "CPU : " ++ (if c < 10 then "0" else "") ++ toString c ++ " - Bootstrap tree " ++ toString i
+  else []
+
 end Gotree.C10
